@@ -257,18 +257,25 @@ Qed.
 Lemma even_double n : Nat.even (2 * n) = true.
 Proof. rewrite Nat.even_mul. reflexivity. Qed.
 
+Lemma wfbody_pair_last fk fv :
+  wfcp [] any_slot fk -> wfcp [] slot_ok fv -> wfbody true 2 (seq fk fv).
+Proof.
+  intros Hk Hv.
+  pose proof (wfbody_pair _ _ nop 0 Hk Hv (wfbody_nop true)) as Hp.
+  intros st HI. destruct (Hp st HI) as (st' & evs & Ef & Hrest). exists st', evs. split; [|exact Hrest].
+  rewrite <- Ef. unfold seq, nop. destruct (fk st) as [s1 e1].
+  destruct (fv s1) as [s2 e2]. now rewrite app_nil_r.
+Qed.
+
 (* the four-entry encoding {__ptype => tn, __pvalue => f} *)
 Lemma rich_hash2_wf ps lvl tn f :
   wfcp [] slot_ok f ->
   wfcp ps slot_ok (add_hash 2 (seq (to_data_str e lk ptype_key) (seq (to_data_str e lvl tn)
                                  (seq (to_data_str e lk pvalue_key) f)))).
 Proof.
-  intros Hf. apply (add_hash_wf ps 2 (2 + (2 + 0))); [|reflexivity].
+  intros Hf. apply (add_hash_wf ps 2 (2 + 2)); [|reflexivity].
   apply wfbody_pair; [apply to_data_str_key|apply to_data_str_wf; auto|].
-  pose proof (wfbody_pair _ _ nop 0 (to_data_str_key pvalue_key) Hf (wfbody_nop true)) as Hp.
-  intros st HI. destruct (Hp st HI) as (st' & evs & Ef & Hrest). exists st', evs. split; [|exact Hrest].
-  rewrite <- Ef. unfold seq, nop. destruct (to_data_str e lk pvalue_key st) as [s1 e1].
-  destruct (f s1) as [s2 e2]. now rewrite app_nil_r.
+  apply wfbody_pair_last; [apply to_data_str_key|assumption].
 Qed.
 
 (* a value keyed by identity *)
@@ -300,8 +307,8 @@ Proof.
   - apply to_data_str_wf; auto.
   - (* Default *)
     cbn [Ser.to_data]. destruct (e_rich e); [|apply to_data_str_wf; auto].
-    apply (add_hash_wf [] 1 (2 + 0)); [|reflexivity].
-    apply wfbody_pair; [apply to_data_str_key|apply to_data_str_wf; auto|apply wfbody_nop].
+    apply (add_hash_wf [] 1 2); [|reflexivity].
+    apply wfbody_pair_last; [apply to_data_str_key|apply to_data_str_wf; auto].
   - (* Array *)
     rewrite to_data_arr. apply process_id_wf. intros ps _. apply (add_array_wf ps _ (length vs)).
     apply wfbody_elems. intros x Hx. rewrite Forall_forall in IH. now apply IH.
@@ -322,7 +329,7 @@ Proof.
       { intros en Hen. split; [now apply (proj1 (IH en Hen))|now apply (proj2 (IH en Hen))]. }
       now apply (add_array_wf [] _ cnt).
     + apply (add_hash_wf ps _ (2 * length es)); [|apply even_double].
-      apply (wfbody_pairs (key_str to_s e) (fun en => to_data e lv (snd en))).
+      apply (wfbody_pairs (key_str e) (fun en => to_data e lv (snd en))).
       intros en Hen. split; [|now apply (proj2 (IH en Hen))].
       unfold key_str. destruct (fst (fst en)); apply to_data_str_key.
   - (* Sensitive *)
@@ -331,7 +338,7 @@ Proof.
     + now apply to_data_str_doer.
   - (* Binary *)
     cbn [Ser.to_data]. apply process_id_wf. intros ps Hps. destruct (e_bin e) eqn:Eb.
-    + apply Hadd; [cbn; exact Eb|reflexivity].
+    + apply Hadd; reflexivity.
     + destruct (e_rich e); [|now apply to_data_str_doer].
       apply rich_hash2_wf. apply to_data_str_wf; auto.
   - (* a value with a serialization string *)
@@ -357,7 +364,27 @@ Theorem stream_wf_env x :
 Proof.
   destruct (to_data_wf x lv _ Invp_init) as (st' & evs & Ef & Hr & _ & Hwf).
   rewrite Ef; cbn [fst snd]. split; [|exact Hr].
-  unfold wf_stream. specialize (Hwf [] [] eq_refl). rewrite app_nil_r in Hwf. rewrite Hwf. reflexivity.
+  unfold wf_stream. specialize (Hwf [] [] eq_refl). rewrite app_nil_r in Hwf. cbn [ridx bump] in Hwf.
+  rewrite Hwf. reflexivity.
 Qed.
 
 End Wf.
+
+(* ------------------------------------------------------------------------------------------------ *)
+(* for the environments NewSerializer + Convert produce *)
+
+Lemma env_of_keys o c : e_ck (env_of o c) = false -> (e_dedup (env_of o c) < 2)%N.
+Proof.
+  unfold env_of; cbn [e_ck e_dedup]. intros Hck. rewrite Hck; cbn [negb].
+  rewrite andb_true_r. destruct (N.leb_spec 2 (if local_reference o then dedup_level o else 0%N)); lia.
+Qed.
+
+(* the stream is well formed for every value and every point of the option x capability matrix *)
+Theorem stream_wf {payload} (to_s : str -> payload -> str) o c x :
+  wf_stream (env_of o c) (serialize to_s o c x) = true.
+Proof. unfold serialize. apply (stream_wf_env to_s (env_of o c) (env_of_keys o c) x). Qed.
+
+(* refIndex is in step with the consumer: at the end it is the number of positions delivered *)
+Theorem refindex_counts_positions {payload} (to_s : str -> payload -> str) o c x :
+  ridx (fst (to_data to_s (env_of o c) lv x (mksctx [] 0))) = npos (serialize to_s o c x).
+Proof. unfold serialize. apply (stream_wf_env to_s (env_of o c) (env_of_keys o c) x). Qed.
